@@ -30,3 +30,4 @@
 (assert (forall ((x Int)) (! (=> (assertok_go_constant_Value x) (not (= (assert_go_constant_Value x) 0))) :pattern ((assert_go_constant_Value x)))))  ; a successful x.(constant.Value) yields a non-nil interface value
 (declare-fun creal (Int) Int)   ; real(c) of a complex value (the engine's builtin)
 (declare-fun cimag (Int) Int)   ; imag(c)
+(declare-fun constCompare (Int Int Int) Bool)      ; go/constant.Compare(x, op, y)
